@@ -244,6 +244,7 @@ def run(ctx, rep):
                       "loss, loggers or convergence check passes through the notification loop over self.parameters")
     rep.rule('C11.T', "a parameter class whose cached tensor is computed by calling a plain attribute (a transform) that itself may hold "
                       "parameters/models listens to that attribute")
+    rep.rule('C11.B', "the value cached by a CallableModel (`lp`) is read only behind its dirty flag inside CallableModel; everyone else calls the model")
     rep.rule('C11.F', "a dirty flag is cleared only on paths that ran the refresh it guards")
     rep.rule('C11.L', "values that are listened to are selected by the abstract parameter / model kind, never by a concrete leaf class")
     rep.rule('C11.M', "a result memoised on the object is keyed by every method argument it depends on")
@@ -273,6 +274,7 @@ def run(ctx, rep):
     check_transform_cache(ctx, rep)
     check_memo_keys(ctx, rep)
     check_flag_clears(ctx, rep)
+    check_cache_bypass(ctx, rep)
     check_listener_filters(ctx, rep)
 
 
@@ -351,6 +353,55 @@ def check_listener_filters(ctx, rep, rule='C11.L'):
                                       f"TransformedParameter / ViewParameter / CatParameter given in the same place is read at evaluation but never listened to")
     rep.analysed[f'listener_filters[{rule}]'] = n
     return n
+
+
+# ---------------------------------------------------------------------------
+LP_READERS_OK = {
+    ('torchtree.optim.convergence', 'VariationalConvergence.check'): "samples == 0 asks for the loss value of the optimisation step itself (documented option), not for a fresh evaluation",
+    ('torchtree.optim.convergence', 'StanVariationalConvergence.check'): "samples == 0 asks for the loss value of the optimisation step itself (documented option), not for a fresh evaluation",
+}
+
+
+def check_cache_bypass(ctx, rep, rule='C11.B', only=None):
+    """who may read the cached value: `.lp` of a CallableModel is read only inside CallableModel (behind the dirty flag); anyone else must call the model"""
+    n = 0
+    for m in ctx.prog.modules.values():
+        if m.name == 'torchtree.core.model':
+            continue
+        if only is not None and not only(m):
+            continue
+        for x in ast.walk(m.tree):
+            if not (isinstance(x, ast.Attribute) and x.attr in ('lp', 'lp_needs_update') and isinstance(x.ctx, ast.Load)):
+                continue
+            if isinstance(x.value, ast.Name) and x.value.id == 'self' and any(c.has_base('torchtree.core.model.CallableModel') for c in ctx.classes.classes.values()
+                                                                              if c.module is m and _encloses(c.node, x)):
+                continue      # a CallableModel subclass looking at its own cache
+            fn = x
+            while fn is not None and not isinstance(fn, ast.FunctionDef):
+                fn = getattr(fn, '_parent', None)
+            cl = fn
+            while cl is not None and not isinstance(cl, ast.ClassDef):
+                cl = getattr(cl, '_parent', None)
+            qual = f"{cl.name + '.' if cl is not None else ''}{fn.name if fn is not None else '<module>'}"
+            n += 1
+            key = f"{m.name}::{qual}::{norm_text(x)[:40]}"
+            if (m.name, qual) in LP_READERS_OK:
+                rep.excluded(rule, key, where(m, x), LP_READERS_OK[(m.name, qual)])
+                continue
+            rep.bad(rule, key, where(m, x), None,
+                    f"{qual} reads `{norm_text(x)}` — the value cached by the last call — instead of calling the model: if a parameter changed since (a rejected proposal was "
+                    f"restored, another operator moved, …) the value belongs to another state than the one being reported")
+    rep.analysed[f'cache_reads[{rule}]'] = n
+    return n
+
+
+def _encloses(node, x) -> bool:
+    p = x
+    while p is not None:
+        if p is node:
+            return True
+        p = getattr(p, '_parent', None)
+    return False
 
 
 # ---------------------------------------------------------------------------
